@@ -12,6 +12,7 @@ tie   : op-sequence differential.  One PRNG draws operation sequences; each is r
             itself (values to interpolation accuracy, per-side dispatch, shapes, errors,
             strictly increasing table, row-wise dropping, write+read round trip).
 """
+import copy
 import itertools
 import json
 import logging
@@ -213,9 +214,13 @@ def gen_seq(rng, maxlen):
                 nom = ab
         elif r < 0.972:
             ops.append(dict(op="readmissing"))
+        elif r < 0.985:
+            ops.append(dict(op="copy"))
         else:
             a = _g(rng, -3, 1)
             b = a + rng.choice([1, 2, 4, 0, -1]) / rng.choice([1, 2])
+            if rng.random() < 0.3:
+                b = a + 2.0 ** -rng.choice([5, 7, 9])      # narrower than a derivative stencil
             ops.append(dict(op="new", a=a, b=b, n=rng.choice([1, 2, 3, 5, 9, 7])))
             if b > a:
                 nom = (a, b)
@@ -275,11 +280,15 @@ class Tick:
     def __init__(self):
         self.next = 1000
         self.info = {}
+        self.serial = {}
+        self.min_serial = 0          # serial of the spline in force when the op started
         self.valid_from = 0
 
-    def issue(self, info):
+    def issue(self, info, serial=None):
         self.next += 1 + (self.next * 7919) % 13
         self.info[self.next] = info
+        if serial is not None:
+            self.serial[self.next] = serial
         return float(self.next)
 
     def begin(self):
@@ -291,6 +300,8 @@ class Tick:
         i = int(v)
         if i <= self.valid_from:
             return None
+        if self.serial.get(i, self.min_serial) < self.min_serial:
+            return None              # answered by a spline object older than the current one
         return self.info.get(i)
 
     def lookup_any(self, v):
@@ -301,6 +312,7 @@ class Tick:
 
 
 BADVAL = {"nan": np.nan, "inf": np.inf, "-inf": -np.inf}
+_SERIAL = itertools.count(1)
 
 
 def make_tag_spline(tick):
@@ -311,6 +323,7 @@ def make_tag_spline(tick):
 
         def __init__(self, x, y, axis=0, bc_type="not-a-knot", extrapolate=None):
             super().__init__(x, y, axis=axis, bc_type=bc_type, extrapolate=extrapolate)
+            self._c18_serial = next(_SERIAL)
             self._c18_x = np.array(x, dtype=float)
             self._c18_y = np.array(y, dtype=float)
             self._lo = float(self.x[0])
@@ -324,7 +337,7 @@ def make_tag_spline(tick):
                 q = float(x[idx])
                 kind = "KIn" if self._lo <= q <= self._hi else \
                     ("KExt" if self.extrapolate else "KNan")
-                out[idx] = tick.issue(("S", d, kind, q))
+                out[idx] = tick.issue(("S", d, kind, q), serial=self._c18_serial)
             return out
 
         def __call__(self, x, nu=0, extrapolate=None):
@@ -473,12 +486,20 @@ def apply_op(f, op, tmpdir):
     if o == "new":
         return f.newInterpolationTable(op["a"], op["b"], op["n"])
     if o == "eval":
-        if op.get("via") == "call":
-            return f(make_input(op), op["use"])
-        return f.evaluate(make_input(op), op["use"])
+        x = make_input(op)
+        keep = copy.deepcopy(x)
+        r = f(x, op["use"]) if op.get("via") == "call" else f.evaluate(x, op["use"])
+        input_untouched(x, keep, "evaluate")
+        result_not_shared(f, r, x, "evaluate")
+        return r
     if o == "deriv":
-        return f.derivative(make_input(op), order=op["order"], bUseInterpolation=op["use"],
-                            epsilon=1.0, scale=2.0 ** -op["dxexp"])
+        x = make_input(op)
+        keep = copy.deepcopy(x)
+        r = f.derivative(x, order=op["order"], bUseInterpolation=op["use"],
+                         epsilon=1.0, scale=2.0 ** -op["dxexp"])
+        input_untouched(x, keep, "derivative")
+        result_not_shared(f, r, x, "derivative")
+        return r
     if o == "extend":
         ct = dict(int=int, npint=np.int64, float=float)[op.get("counts", "int")]
         return f.extendInterpolationTable(op["a"], op["b"], ct(op["nlo"]), ct(op["nhi"]))
@@ -490,7 +511,12 @@ def apply_op(f, op, tmpdir):
         return f.disableAdaptiveInterpolation()
     if o == "sched":
         x = make_input(op)
-        return f.scheduleForInterpolation(x, f._functionImplementation(x))
+        fx = f._functionImplementation(x)
+        keep = copy.deepcopy(x)
+        r = f.scheduleForInterpolation(x, fx)
+        input_untouched(x, keep, "scheduleForInterpolation")
+        hand_over(f, x, fx, "scheduleForInterpolation")
+        return r
     if o == "wr":
         p = fresh_path(tmpdir)
         f.writeInterpolationTable(p)
@@ -501,7 +527,12 @@ def apply_op(f, op, tmpdir):
         return f.readInterpolationTable(p)
     if o == "fromvals":
         x = np.array(op["xs"], dtype=float)
-        return f.newInterpolationTableFromValues(x, f._functionImplementation(x))
+        fx = f._functionImplementation(x)
+        try:
+            return f.newInterpolationTableFromValues(x, fx)
+        finally:
+            # the caller goes on using its arrays: the table must not live in them
+            hand_over(f, x, fx, "newInterpolationTableFromValues")
     if o == "readfile":
         # a file in the documented format (x f1(x) f2(x) ...), written by the harness
         x = np.array(op["xs"], dtype=float)
@@ -518,11 +549,73 @@ class HarnessError(Exception):
     pass
 
 
+class Ownership(Exception):
+    """the class kept, or wrote into, an array that belongs to the caller"""
+
+
+def _arrays(f):
+    out = []
+    for name in ("_interpolationPoints", "_interpolationValues", "_directlyEvaluatedAt"):
+        v = getattr(f, name, None)
+        if isinstance(v, np.ndarray):
+            out.append((name, v))
+    sp = getattr(f, "_interpolatedFunction", None)
+    for name in ("x", "c"):
+        v = getattr(sp, name, None)
+        if isinstance(v, np.ndarray):
+            out.append(("spline." + name, v))
+    return out
+
+
+def hand_over(f, x, fx, who):
+    """after the call the caller owns x and fx again: the object must not share memory with them;
+    then the caller re-uses its buffers (overwritten here), which must not reach the table"""
+    shared = [name for name, v in _arrays(f) for a in (x, fx)
+              if isinstance(a, np.ndarray) and a.size and v.size and np.shares_memory(a, v)]
+    if isinstance(x, np.ndarray) and x.dtype.kind == "f" and x.flags.writeable:
+        x += 1.0
+    if isinstance(fx, np.ndarray) and fx.dtype.kind == "f" and fx.flags.writeable:
+        fx[...] = np.nan
+    if shared:
+        raise Ownership("%s: the object keeps the caller's arrays as %s (a later change of the "
+                        "caller's buffer changes the table)" % (who, ", ".join(sorted(set(shared)))))
+
+
+def input_untouched(x, keep, who):
+    if isinstance(x, np.ndarray) and not np.array_equal(x, keep, equal_nan=True):
+        raise Ownership("%s modified its input array" % who)
+    if isinstance(x, list) and x != keep:
+        raise Ownership("%s modified its input list" % who)
+
+
+def result_not_shared(f, r, x, who):
+    if isinstance(r, np.ndarray) and r.size:
+        for name, v in _arrays(f):
+            if v.size and np.shares_memory(r, v):
+                raise Ownership("%s returns a view of the object's %s" % (who, name))
+        if isinstance(x, np.ndarray) and x.size and np.shares_memory(r, x):
+            raise Ownership("%s returns a view of its input" % who)
+
+
 _COUNTER = itertools.count()
 
 
 def fresh_path(tmpdir):
     return os.path.join(tmpdir, "table_%d.txt" % next(_COUNTER))
+
+
+def spoil(f):
+    """after a deep copy the original must not matter any more"""
+    for name in ("_interpolationPoints", "_interpolationValues"):
+        v = getattr(f, name, None)
+        if isinstance(v, np.ndarray) and v.dtype.kind == "f" and v.flags.writeable:
+            v[...] = np.nan
+    sp = getattr(f, "_interpolatedFunction", None)
+    c = getattr(sp, "c", None)
+    if isinstance(c, np.ndarray) and c.flags.writeable:
+        c[...] = np.nan
+    f._directlyEvaluatedAt = []
+    f._directEvaluateCount = 10 ** 6
 
 
 def exact15(v):
@@ -573,9 +666,16 @@ class TagWorld:
         note = None
         for op in seq["ops"]:
             tick.begin()
+            tick.min_serial = getattr(getattr(f, "_interpolatedFunction", None), "_c18_serial", 0)
             f.calls.clear()
             o = op["op"]
             op = dict(op)
+            if o == "copy":
+                # go on with a deep copy; the original is changed behind its back and dropped
+                g = copy.deepcopy(f)
+                spoil(f)
+                f = g
+                continue
             if o == "wr" and f.hasInterpolation() and not (
                     exact15(f.interpolationRangeMin()) and exact15(f.interpolationRangeMax())):
                 # the text format keeps 15 digits: a table END with more digits moves by an ulp
@@ -591,10 +691,17 @@ class TagWorld:
                 r = apply_op(f, op, tmpdir)
             except Exception as e:  # noqa
                 exc = type(e).__name__
+                excmsg = str(e)[:160]
+            if exc is None and o in ("fromvals", "readfile") and \
+                    list(op["xs"]) != sorted(op["xs"]):
+                # the property does not require that rows out of order are REJECTED: a class that
+                # accepts them must hold the rows sorted by abscissa, each value on its abscissa --
+                # which is what the model says about the sorted rows
+                op["xs_model"] = sorted(op["xs"])
             if exc is not None and exc not in ERRS:
                 ops.append(op)
                 obs.append(dict(out=("other", exc), st=snap(f, tick)))
-                note = "unexpected exception class %s" % exc
+                note = "unexpected exception class %s (%s)" % (exc, excmsg)
                 break
             if o in ("eval", "deriv"):
                 x = np.asarray(make_input(op), dtype=float)
@@ -735,9 +842,9 @@ def coq_op(op):
     if o == "sched":
         return "Schedule %s" % qlist(op["pts"])
     if o == "fromvals":
-        return "FromValues %s" % qlist(op["xs"])
+        return "FromValues %s" % qlist(op.get("xs_model", op["xs"]))
     if o == "readfile":
-        return "ReadFile %s" % qlist(op["xs"])
+        return "ReadFile %s" % qlist(op.get("xs_model", op["xs"]))
     if o == "readmissing":
         return "ReadMissing"
     return "WriteRead"
@@ -799,7 +906,8 @@ def model_observation(ctx, name, cfg, ops, i):
 # differential driver
 
 def jseq(cfg, ops):
-    return dict(cfg=cfg, ops=[{k: v for k, v in o.items() if k != "pos"} for o in ops])
+    return dict(cfg=cfg, ops=[{k: v for k, v in o.items() if k not in ("pos", "xs_model")}
+                              for o in ops])
 
 
 def differential(ctx, world, seqs, tmpdir, label):
@@ -859,7 +967,7 @@ def report_mismatch(ctx, world, tmpdir, cfg, ops, obs, name):
             break
         rr = []
         for c in cands:
-            c = [{k: v for k, v in o.items() if k != "pos"} for o in c]
+            c = [{k: v for k, v in o.items() if k not in ("pos", "xs_model")} for o in c]
             o2, b2, note = world.run(dict(cfg=cfg, ops=c), tmpdir)
             rr.append((o2, b2, note))
         usable = [(o2, b2) for o2, b2, note in rr if len(o2) == len(ops) - 1 or
@@ -956,7 +1064,9 @@ def interp_tol(tab, x, d=0):
         intervals (it decays at least by 1/2 per knot: diagonal dominance of the spline system).
     On 6e4 random meshes of the kinds the generators produce (uniform, extended with other
     spacings, with a dropped window, with a cluster of finite-difference stencil points) the
-    largest observed error / bound(K=1) was 0.76, 3.0, 2.9 for d = 0, 1, 2."""
+    largest observed error / bound(K=1) was 0.76, 3.0, 2.9 for d = 0, 1, 2; K = 4, 15, 15 (K_1, K_2
+    are empirical: margin 5x; the largest error/tolerance ratio of every run is recorded in the
+    evidence under tolerance_margins so that drift is visible)."""
     tab = np.asarray(tab, dtype=float)
     n = len(tab)
     if n == 2:
@@ -971,7 +1081,7 @@ def interp_tol(tab, x, d=0):
     c = (5 / 384, 1 / 24, 3 / 8)[d]
     # floating-point floor: values 1e-12; derivatives of a spline on tiny intervals lose digits
     floor = (1e-11, 1e-9 / h + 1e-9, 1e-9 / h ** 2 + 1e-6)[d]
-    return (4.0, 10.0, 10.0)[d] * 0.2401 * (c * h ** (4 - d) + h ** (1 - d) * S / 24) + floor
+    return (4.0, 15.0, 15.0)[d] * 0.2401 * (c * h ** (4 - d) + h ** (1 - d) * S / 24) + floor
 
 
 class Real:
@@ -979,6 +1089,11 @@ class Real:
         self.ctx = ctx
         self.cls = make_real_class()
         self.tmpdir = tmpdir
+
+    def margin(self, name, err, tol):
+        if np.size(err) and np.all(np.isfinite(err)):
+            m = self.ctx.cov.setdefault("tolerance_margins", {})
+            m[name] = round(max(m.get(name, 0.0), float(np.max(err) / tol)), 4)
 
     def make(self, cfg):
         f = self.cls(cfg["bad"], cfg.get("badcol", 0), cfg.get("badval", "nan"),
@@ -1002,6 +1117,11 @@ class Real:
         trail = (k,) if k > 1 else ()
         for i, op in enumerate(seq["ops"]):
             o = op["op"]
+            if o == "copy":
+                g = copy.deepcopy(f)
+                spoil(f)
+                f = g
+                continue
             pre = snap(f)
             if pre["hasT"]:
                 pre["vals"] = np.array(f._interpolationValues, dtype=float)
@@ -1126,11 +1246,13 @@ class Real:
             tv = np.atleast_1d(truth[idx])
             side = "lo" if lo[idx] else ("hi" if hi[idx] else "in")
             mode = dict(lo=pre["mlo"], hi=pre["mhi"]).get(side)
-            if side != "in" and not same_table:
-                continue
+            # (the whole call is answered by the table in force when it was made, also when a
+            # direct evaluation of the lower side fires an adaptive update in the middle)
             fin = np.isfinite(tv)
             if side == "in":
                 tol = interp_tol(tab, xv)
+                self.margin("value inside, %s knots" % (len(tab) if len(tab) < 4 else ">=4"),
+                            np.abs(got - tv)[fin], tol)
                 bad_ = np.any(~np.isfinite(got)) or np.any(np.abs(got - tv)[fin] > tol)
                 what, key = "inside the table (tolerance %.3g)" % tol, "eval-value-inside"
             elif mode == "NONE":
@@ -1190,9 +1312,18 @@ class Real:
                 return False
             return True
         lo, hi = self.sides(pre, x)
-        must_raise = (np.any(lo) and pre["mlo"] == "ERROR") or (np.any(hi) and pre["mhi"] == "ERROR")
-        # a stencil around a point just outside reaches the other side only for tables narrower
-        # than 4 dx: not generated
+        # every stencil point is answered by the mode of ITS side: for a table narrower than the
+        # stencil (4 dx) a point below the table reaches the upper side's mode too
+        outp = x[lo | hi].ravel()
+        offs = np.array([-2.0, -1.0, 1.0, 2.0] if n == 1 else [-2.0, -1.0, 0.0, 1.0, 2.0])
+        sten = outp[None, :] + offs[:, None] * dx
+        reach_lo = bool(np.any(sten <= pre["rmin"])) if outp.size else False
+        reach_hi = bool(np.any(sten >= pre["rmax"])) if outp.size else False
+        narrow = (pre["rmax"] - pre["rmin"]) <= 4 * dx
+        both_none = pre["mlo"] == "NONE" and pre["mhi"] == "NONE"
+        must_raise = outp.size > 0 and not both_none and (
+            (reach_lo and pre["mlo"] == "ERROR") or (reach_hi and pre["mhi"] == "ERROR") or
+            (pre["mlo"] == "ERROR" and pre["mhi"] == "ERROR"))
         if exc is not None:
             if must_raise and isinstance(exc, ValueError):
                 return True
@@ -1221,8 +1352,8 @@ class Real:
             tv = np.atleast_1d(truth[idx])
             side = "lo" if lo[idx] else ("hi" if hi[idx] else "in")
             mode = dict(lo=pre["mlo"], hi=pre["mhi"]).get(side)
-            if side != "in" and not same_table:
-                continue
+            if side != "in" and (not same_table or narrow):
+                continue                  # (narrow tables: dispatch checked by pass A's tags)
             fin = np.isfinite(tv)
             bad_ = False
             if side == "in":
@@ -1232,6 +1363,7 @@ class Real:
                 elif len(tab) >= 4:
                     tol = interp_tol(tab, xv, n)
                     what = "inside the table (tolerance %.3g)" % tol
+                    self.margin("derivative %d inside" % n, np.abs(got - tv)[fin], tol)
                     bad_ = np.any(np.abs(got - tv)[fin] > tol)
             else:
                 edge = pre["rmin"] if side == "lo" else pre["rmax"]
@@ -1401,6 +1533,12 @@ class Real:
         keep = np.array([not in_bad(bad, v) for v in xs], dtype=bool)
         xf = xs[keep]
         feasible = len(xf) >= 2 and bool(np.all(np.diff(xf) > 0))
+        if exc is None and not feasible and len(xf) >= 2 and \
+                bool(np.all(np.diff(np.sort(xf)) > 0)):
+            # rows out of order may be rejected, or accepted as the rows sorted by abscissa
+            # (each value kept on its abscissa: universal pairing check)
+            xf = np.sort(xf)
+            feasible = True
         if exc is not None:
             if feasible or not isinstance(exc, ValueError):
                 self.fail("user table %s (%s order) raised %s: %s" % (
@@ -1662,6 +1800,128 @@ class StubPotential:
         return np.stack([v], axis=-1), V
 
 
+def real_potential():
+    """a real EffectivePotential subclass (WallGo's own findLocalMinimum, finite-difference
+    machinery and Fields) whose phase is known in closed form:
+    V = -T^4 + 0.3 T^2 + (v^2 - (4 - 0.1 T^2))^2 / 4, minimum v = sqrt(4 - 0.1 T^2)"""
+    import WallGo
+
+    class Pot(WallGo.EffectivePotential):
+        fieldCount = 1
+        effectivePotentialError = 1e-12
+
+        def evaluate(self, fields, temperature):
+            v = fields.getField(0)
+            T = np.asarray(temperature, dtype=float)
+            return -T ** 4 + 0.3 * T ** 2 + 0.25 * (v ** 2 - (4 - 0.1 * T ** 2)) ** 2
+
+    pot = Pot()
+    pot.configureDerivatives(WallGo.VeffDerivativeSettings(temperatureVariationScale=1.0,
+                                                           fieldValueVariationScale=1.0))
+    return pot
+
+
+def freeenergy_grid(ctx):
+    """FreeEnergy over a REAL EffectivePotential: evaluate and derivative (orders 1, 2), scalar and
+    1-D input (length 1, 2, 5), inside / outside / mixed, all mode pairs on the side that is
+    hit, the three ways into the finite-difference path (no table, bUseInterpolation=False,
+    outside in mode NONE), as constructed (adaptive on) and with adaptive off"""
+    import WallGo
+    from WallGo import EExtrapolationType as E
+    from WallGo.freeEnergy import FreeEnergy
+    from WallGo.exceptions import WallGoError
+    pot = real_potential()
+    V = [lambda T: -T ** 4 + 0.3 * T ** 2, lambda T: -4 * T ** 3 + 0.6 * T,
+         lambda T: -12 * T ** 2 + 0.6]
+    tol = [1e-6, 2e-4, 2e-2]
+    lo, hi = 0.5, 2.0
+    inputs = [1.25, 2.5, np.array([1.25]), np.array([2.5]), np.array([0.75, 1.9]),
+              np.array([2.25, 2.5]), np.array([0.25, 1.0, 2.5]),
+              np.array([2.25, 2.5, 2.75, 3.0, 3.25]), [0.6, 1.3]]
+
+    def run_one(fe, what, x, order, use, mlo, mhi, table):
+        xa = np.asarray(x, dtype=float)
+        xs = np.atleast_1d(xa)
+        below = bool(np.any(xs < lo)) and table and use
+        above = bool(np.any(xs > hi)) and table and use
+        must_raise = (below and mlo == "ERROR") or (above and mhi == "ERROR")
+        rep = dict(kind="freeenergy", what=what, x=xs.tolist(), order=order, use=use,
+                   modes=[mlo, mhi], table=table, scalar=(xa.ndim == 0))
+        ctx.count("freeenergy_grid", rep, bucket="%s order %d" % (what, order))
+        try:
+            r = fe.evaluate(x, use) if order == 0 else fe.derivative(x, order=order,
+                                                                      bUseInterpolation=use)
+        except (ValueError, WallGoError, AssertionError) as e:
+            if must_raise and isinstance(e, ValueError):
+                return
+            fail_once(ctx, "FreeEnergy (real potential, %s): %s at %s, modes (%s, %s) raises %s: %s"
+                      % (what, "evaluate" if order == 0 else "derivative(order=%d)" % order,
+                         xs.tolist(), mlo, mhi, type(e).__name__, str(e)[:70]), rep,
+                      "freeenergy-fd-derivative-array" if (order and not isinstance(x, float)
+                                                           and len(xs) > 1)
+                      else "freeenergy-raises-%s" % type(e).__name__)
+            return
+        if must_raise:
+            fail_once(ctx, "FreeEnergy (real potential, %s): %s at %s outside the table on an ERROR "
+                      "side returned %s" % (what, "evaluate" if order == 0 else
+                                            "derivative(order=%d)" % order, xs.tolist(),
+                                            np.round(np.atleast_1d(r.veffValue), 4).tolist()), rep,
+                      "freeenergy-error-mode-silent")
+            return
+        got = np.atleast_1d(np.asarray(r.veffValue, dtype=float))
+        want = V[order](xs)
+        # CONSTANT / FUNCTION sides: only in-range and direct elements are compared with the
+        # closed form; CONSTANT elements with the boundary value (derivative 0)
+        mask = np.ones(len(xs), dtype=bool)
+        if table and use:
+            for side, m in ((xs < lo, mlo), (xs > hi, mhi)):
+                if m == "FUNCTION":
+                    mask &= ~side
+                if m == "CONSTANT":
+                    want = np.where(side, V[0](np.where(xs < lo, lo, hi)) if order == 0 else 0.0,
+                                    want)
+        if got.shape != xs.shape or (len(xs) > 1 and np.shape(r.veffValue) != xa.shape):
+            bad = "shape %s for input shape %s" % (np.shape(r.veffValue), xa.shape)
+        elif np.any(~np.isfinite(got[mask])) or \
+                np.max(np.abs(got - want)[mask], initial=0.0) > tol[order] * (1 + np.max(np.abs(want))):
+            bad = "got %s, expected %s" % (np.round(got, 4).tolist(), np.round(want, 4).tolist())
+        else:
+            return
+        fail_once(ctx, "FreeEnergy (real potential, %s): %s at %s, modes (%s, %s): %s" % (
+            what, "evaluate" if order == 0 else "derivative(order=%d)" % order, xs.tolist(), mlo,
+            mhi, bad), rep,
+            "freeenergy-fd-derivative-array" if (order and len(xs) > 1) else "freeenergy-contract")
+
+    for adaptive in (True, False):
+        protos = {}
+
+        def fresh(table):
+            if table not in protos:
+                fe = FreeEnergy(pot, 1.0, WallGo.Fields([2.0]), initialInterpolationPointCount=50)
+                if not adaptive:
+                    fe.disableAdaptiveInterpolation()
+                if table:
+                    fe.newInterpolationTable(lo, hi, 61)
+                protos[table] = fe
+            return copy.deepcopy(protos[table])
+        for x in inputs:
+            for order in (0, 1, 2):
+                # no table yet: direct / finite differences
+                fe = fresh(False)
+                fe.setExtrapolationType(E.NONE, E.NONE)
+                run_one(fe, "no table", x, order, True, "NONE", "NONE", False)
+                # table, interpolation switched off for the call
+                run_one(fresh(True), "bUseInterpolation=False", x, order, False, "ERROR", "ERROR",
+                        True)
+                for mlo, mhi in (("ERROR", "ERROR"), ("NONE", "NONE"), ("CONSTANT", "NONE"),
+                                 ("NONE", "CONSTANT"), ("ERROR", "NONE"), ("FUNCTION", "ERROR"),
+                                 ("NONE", "FUNCTION")):
+                    fe = fresh(True)
+                    fe.setExtrapolationType(getattr(E, mlo), getattr(E, mhi))
+                    run_one(fe, "table [0.5, 2]" + (" adaptive" if adaptive else ""), x, order,
+                            True, mlo, mhi, True)
+
+
 def derived_classes(ctx):
     """the two subclasses WallGo ships: FreeEnergy (freeEnergy.py: evaluate/__call__/derivative
     overrides, FreeEnergyValueType packing, ValueError -> WallGoError) and JbIntegral
@@ -1723,8 +1983,13 @@ def derived_classes(ctx):
     except Exception as e:  # noqa
         fail_once(ctx, "FreeEnergy (stub potential) raised %s: %s" % (type(e).__name__, str(e)[:80]),
                   rep, "freeenergy-raises-%s" % type(e).__name__)
-    from WallGo.PotentialTools.integrals import JbIntegral
-    rep = dict(kind="derived", cls="JbIntegral")
+    from WallGo.PotentialTools.integrals import JbIntegral, JfIntegral
+    for Integral in (JbIntegral, JfIntegral):
+        integral_slice(ctx, Integral, E)
+
+
+def integral_slice(ctx, JbIntegral, E):
+    rep = dict(kind="derived", cls=JbIntegral.__name__)
     ctx.count("derived_classes", rep)
     try:
         jb = JbIntegral(bUseAdaptiveInterpolation=False)
@@ -1750,11 +2015,11 @@ def derived_classes(ctx):
         if np.max(np.abs(r[1] - np.asarray(jb._functionImplementation(3.5)))) > 1e-12:
             problems.append("NONE side is not the direct value")
         if problems:
-            fail_once(ctx, "JbIntegral (5-point table on [1, 3]): " + "; ".join(problems[:4]), rep,
-                      "jbintegral-contract")
+            fail_once(ctx, "%s (5-point table on [1, 3]): " % JbIntegral.__name__ +
+                      "; ".join(problems[:4]), rep, "integral-contract")
     except Exception as e:  # noqa
-        fail_once(ctx, "JbIntegral raised %s: %s" % (type(e).__name__, str(e)[:80]), rep,
-                  "jbintegral-raises-%s" % type(e).__name__)
+        fail_once(ctx, "%s raised %s: %s" % (JbIntegral.__name__, type(e).__name__, str(e)[:80]),
+                  rep, "integral-raises-%s" % type(e).__name__)
 
 
 def degenerate_hazard(ctx):
@@ -1830,6 +2095,7 @@ def run(ctx):
     notable_ulp(ctx)
     defaults_family(ctx)
     derived_classes(ctx)
+    freeenergy_grid(ctx)
     ctx.cov["rule"] = (
         "a case is an operation sequence (configuration: return dimension 1..4, adaptive flag, "
         "threshold, initial point count, optional non-finite window; ops: new/extend table, "
